@@ -89,4 +89,53 @@ theorem circ_labelling_model {α} (C : Circ) (io : List Nat) (hres : ∀ p ∈ f
   rw [← hv i hi, hc i (by rw [toNet_lines_size]; exact hi)]
   exact toNet_lineEq_agree C io _ z neg prim a v _ hv i hi (hres _ (List.getElem_mem hi))
 
+/-! ## the same with HOLES: nodes whose meaning is given from outside (C10 `ConsOff`; used for library cells) -/
+
+/-- every line that is not driven by a node selected by `S` carries what its driver computes from the labelling -/
+def NetLabellingOff {α} (net : Net) (S : Nat → Prop) (z : α) (neg : α → α) (prim : String → α → α → α → α → α) (a : Nat → α)
+    (v : Nat → α) : Prop :=
+  ∀ i, i < net.lines.size → ¬ S (net.line i).driver → v i = lineEq net net.sPos z neg prim a v i
+
+theorem netLabellingOff_false {α} (net : Net) (z : α) (neg : α → α) (prim : String → α → α → α → α → α) (a : Nat → α) (v : Nat → α) :
+    NetLabellingOff net (fun _ => False) z neg prim a v ↔ NetLabelling net z neg prim a v :=
+  ⟨fun h i hi => h i hi (fun x => x), fun h i hi _ => h i hi⟩
+
+/-- `w` satisfies the name-level gate equation of every line whose driver end point is not selected by `H` -/
+def CircModelOff {α} (C : Circ) (io : List Nat) (H : Ep → Prop) (z : α) (neg : α → α) (prim : String → α → α → α → α → α)
+    (a : Nat → α) (w : Ep → α) : Prop :=
+  ∀ p ∈ flatLines C, ¬ H p.1 →
+    w p.2 = driveVal (flatLines C) (C.kindOf p.1) ((C.toNet io).sPos (C.nodeIdx p.1)) z neg prim a w p.1
+
+theorem circModelOff_false {α} (C : Circ) (io : List Nat) (z : α) (neg : α → α) (prim : String → α → α → α → α → α) (a : Nat → α)
+    (w : Ep → α) : CircModelOff C io (fun _ => False) z neg prim a w ↔ CircModel C io z neg prim a w :=
+  ⟨fun h p hp => h p hp (fun x => x), fun h p hp _ => h p hp⟩
+
+theorem circ_model_labelling_off {α} (C : Circ) (io : List Nat) (hres : ∀ p ∈ flatLines C, C.resolved p.1) (S : Nat → Prop)
+    (H : Ep → Prop) (hSH : ∀ p ∈ flatLines C, H p.1 → S (C.nodeIdx p.1)) (z : α) (neg : α → α)
+    (prim : String → α → α → α → α → α) (a : Nat → α) (w : Ep → α) (v : Nat → α)
+    (hv : ∀ j (hj : j < (flatLines C).length), v j = w (flatLines C)[j].2) (hm : CircModelOff C io H z neg prim a w) :
+    NetLabellingOff (C.toNet io) S z neg prim a v := by
+  intro i hi hS
+  rw [toNet_lines_size] at hi
+  rw [toNet_line C io i hi] at hS
+  rw [toNet_lineEq_agree C io _ z neg prim a v w hv i hi (hres _ (List.getElem_mem hi)), hv i hi]
+  exact hm _ (List.getElem_mem hi) (fun h => hS (hSH _ (List.getElem_mem hi) h))
+
+theorem circ_labelling_model_off {α} (C : Circ) (io : List Nat) (hres : ∀ p ∈ flatLines C, C.resolved p.1)
+    (hnd : ((flatLines C).map (·.2)).Nodup) (S : Nat → Prop) (H : Ep → Prop) (hSH : ∀ p ∈ flatLines C, S (C.nodeIdx p.1) → H p.1)
+    (z : α) (neg : α → α) (prim : String → α → α → α → α → α) (a : Nat → α) (v : Nat → α)
+    (hc : NetLabellingOff (C.toNet io) S z neg prim a v) :
+    CircModelOff C io H z neg prim a (fun e => v ((inLineOf (flatLines C) e).getD 0)) ∧
+    ∀ j (hj : j < (flatLines C).length), v j = (fun e => v ((inLineOf (flatLines C) e).getD 0)) (flatLines C)[j].2 := by
+  have hv : ∀ j (hj : j < (flatLines C).length), v j = (fun e => v ((inLineOf (flatLines C) e).getD 0)) (flatLines C)[j].2 := by
+    intro j hj
+    show v j = v ((inLineOf (flatLines C) (flatLines C)[j].2).getD 0)
+    rw [inLineOf_self' _ hnd j hj]; rfl
+  refine ⟨?_, hv⟩
+  intro p hp hH
+  obtain ⟨i, hi, rfl⟩ := List.getElem_of_mem hp
+  rw [← hv i hi, hc i (by rw [toNet_lines_size]; exact hi) (by
+    rw [toNet_line C io i hi]; exact fun h => hH (hSH _ (List.getElem_mem hi) h))]
+  exact toNet_lineEq_agree C io _ z neg prim a v _ hv i hi (hres _ (List.getElem_mem hi))
+
 end KV.Netlist
